@@ -82,7 +82,7 @@ def render : Req → String
   | .marker => "marker"
 
 def outStr : Outcome → String
-  | .ok => "ok" | .errExists => "err-exists" | .errModule => "err-module"
+  | .ok => "ok" | .errExists => "err-exists" | .errModule => "err-module" | .errBad => "err-bad"
 
 def finStr : Option Obj → String
   | none => "absent"
@@ -108,6 +108,21 @@ def handle : List String → Option (List String)
       let ents ← list? entry? ";" (← kv toks "ents")
       let rht := (kv toks "rht") == some "1"
       let ents := ents.map (retag rht)
+      -- TargetDb / TargetDbMap (RedisOutput.selectDB): the worker sees the entry in its target DB
+      let tdb : Option Nat := (kv toks "tdb").bind String.toNat?
+      let dbmap : List (Nat × Nat) := match kv toks "dbmap" with
+        | some m => (m.splitOn ",").filterMap (fun p => match p.splitOn ":" with
+            | [a, b] => do pure ((← a.toNat?), (← b.toNat?))
+            | _ => none)
+        | none => []
+      let mapDb (d : Int) : Int :=
+        if d < 0 then d else
+        match tdb with
+        | some t => Int.ofNat t
+        | none => match dbmap.lookup d.toNat with
+          | some t => Int.ofNat t
+          | none => d
+      let ents := ents.map (fun e => { e with db := mapDb e.db })
       let bad ← match kv toks "bad" with
         | some b => list? Hex.decode "," b
         | none => some []
